@@ -178,10 +178,28 @@ func propC01(c *Ctx) {
 	ii, _ := m.beginIndex(ins.Call.Args[2])
 	ui, _ := m.beginIndex(upd.Call.Args[1])
 	c.Check("R1.4", "Converge/insert-and-update-share-tx", ins.Pos(), ii >= 0 && ii == ui, fmt.Sprintf("insert on transaction #%d, update on #%d", ii+1, ui+1))
+	// … and insert hands that very transaction to the destinations (not the pool)
+	nDest := 0
+	withClosures(m.insert, func(f *ssa.Function) {
+		for _, ci := range callsIn(f) {
+			if !ci.Common().IsInvoke() || ci.Common().Method.Name() != "Insert" {
+				continue
+			}
+			args := ci.Common().Args
+			if len(args) < 3 {
+				continue
+			}
+			nDest++
+			di, why := m.beginIndex(args[2])
+			c.Check("R1.4", fmt.Sprintf("insert/Destination.Insert#%d-on-the-step's-transaction", nDest), instrPos(ci), di >= 0 && di == ui,
+				fmt.Sprintf("rows are written on transaction #%d, the cursor on #%d %s", di+1, ui+1, why))
+		}
+	})
 
 	c.Rule("R1.6", "shared cached blocks: a log is dropped only as a duplicate; the cache serves only the requested range; the logs request spans the range and probes its last block", 8)
 	checkLogsAddDedup(c, "R1.6")
 	checkLogsMergedNotReplaced(c, "R1.6")
+	checkTracesReplaced(c, "R1.6")
 	checkCacheKeyIdentity(c, "R1.6")
 	checkLogsProbe(c, "R1.6")
 
